@@ -56,7 +56,7 @@ ASSUMPTIONS = [
     'authalic_sphere_radius and mean_normal_gravity are truncated series (not identities) and out of scope, as are the WGS inertial moments',
     'seed: quick explores the DESIGN lattice itself (jitter entry 0) plus the off-grid copy VERIF_SEED mod 8; thorough explores all 8',
 ]
-REQUIRED_CLASSES = ['lat:arrays-nan-range-2d', 'lat:number-types', 'object-history', 'f=0', 'f:tiny(<=1e-5)', 'f:small(<=1e-3)', 'f:earthlike(<=0.01)', 'f:large(>0.01)', 'cls:ReferenceEllipsoid',
+REQUIRED_CLASSES = ['lat:arrays-nan-range-2d', 'lat:number-types', 'param-carriers', 'param-carriers:f=0', 'latitude-grids', 'object-history', 'f=0', 'f:tiny(<=1e-5)', 'f:small(<=1e-3)', 'f:earthlike(<=0.01)', 'f:large(>0.01)', 'cls:ReferenceEllipsoid',
                     'cls:WGS', 'lat:equator', 'lat:pole', 'lat:mid', 'lat:near-pole/equator', 'h=0', 'h>0', 'continuity:f=0',
                     'continuity:f>0', 'body', 'body:f=0', 'igf', 'welmec']
 
@@ -663,6 +663,79 @@ def job_formulas(ctx):
                 'welmec_gravity(52.3, 80)': float(welmec_gravity(52.3, 80.0))})
 
 
+def job_param_carriers(ctx, clsname):
+    """(1) The defining parameters carried by NumPy scalars / 0-d arrays / Python ints (a row of a parameter table, (a-b)/a computed from
+    NumPy values) instead of Python floats: every constant and every normal_gravity value is what the float-built ellipsoid gives,
+    for flattened bodies and for spheres (f == 0).  (2) Latitudes given as n-D grids in any memory layout (C-ordered, transposed view,
+    Fortran-ordered, cube with swapped axes): node by node the value of the scalar call."""
+    import ahrs.common.constants as K
+    C = _cls(clsname)
+    names = ('equatorial_normal_gravity', 'polar_normal_gravity', 'dynamical_form_factor', 'normal_gravity_potential', 'mean_normal_gravity')
+    carriers = [('numpy.float64', lambda x: np.float64(x)), ('0-d array', lambda x: np.array(float(x)))]
+    which_sets = [('all four', (0, 1, 2, 3)), ('a only', (0,)), ('f only', (1,)), ('a and f', (0, 1)), ('GM and w', (2, 3))]
+    lats = [0.0, 30.0, -45.0, 90.0]
+    for body in BODIES:
+        A_ = float(getattr(K, body + '_EQUATOR_RADIUS')); B_ = float(getattr(K, body + '_POLAR_RADIUS'))
+        GM = float(getattr(K, body + '_GM')); W = float(getattr(K, body + '_ROTATION'))
+        f = float(K.EARTH_FLATTENING) if body == 'EARTH' else (A_ - B_) / A_
+        E0 = C(A_, f, GM, W)
+        ref = {}
+        with np.errstate(all='ignore'):
+            for nm in names:
+                try:
+                    ref[nm] = float(_prop(ctx, E0, nm, f'{clsname} body={body}')) if hasattr(E0, nm) else None
+                except Exception:
+                    ref[nm] = None
+            gref = {(la, h): float(E0.normal_gravity(la, h)) for la in lats for h in (0.0, 1500.0)}
+        for cn, conv in carriers:
+            for wn, idx in which_sets:
+                vals = [A_, f, GM, W]
+                args = [conv(v) if i in idx else v for i, v in enumerate(vals)]
+                key = f'{clsname} body={body} {fkey(f)} parameters as {cn} ({wn})'
+                ctx.evals += 1
+                try:
+                    with np.errstate(all='ignore'):
+                        E = C(*args)
+                        got = {nm: (float(_prop(ctx, E, nm, key)) if ref[nm] is not None else None) for nm in names}
+                        gg = {kk: float(E.normal_gravity(kk[0], kk[1])) for kk in gref}
+                except (TypeError, AttributeError):
+                    ctx.outcome(('parameter-carrier-refused', cn)); continue
+                except Exception as ex:
+                    ctx.fail('ellipsoid built from NumPy-typed parameters raises', key, repr(ex)[:160], 'the float-built values'); continue
+                for nm in names:
+                    if ref[nm] is None:
+                        continue
+                    e = _rel(got[nm], ref[nm])
+                    ctx.expect(_ok(e, 1e-12), f'{nm}: same value whatever numeric type carries a, f, GM, w', key, got[nm], ref[nm], 1e-12)
+                for kk in gref:
+                    e = _rel(gg[kk], gref[kk])
+                    ctx.expect(_ok(e, 1e-12), 'normal_gravity: same value whatever numeric type carries a, f, GM, w', f'{key} lat={kk[0]} h={kk[1]}', gg[kk], gref[kk], 1e-12)
+                ctx.seen(('param-carrier', clsname, body, cn, wn))
+        if f == 0.0:
+            ctx.cls('param-carriers:f=0')
+        # (2) latitude grids
+        base = np.array([[-90.0, -60.0, -10.0, 0.0], [15.0, 30.0, 45.0, 52.5], [60.0, 75.0, 89.0, 90.0]])
+        cube = np.stack([base, base[::-1] * 0.5, base * 0.25])          # (3, 3, 4)
+        grids = [('C-ordered 3x4', base.copy()), ('transposed view 4x3', base.copy().T), ('Fortran-ordered 3x4', np.asfortranarray(base)), ('strided view', np.repeat(base, 2, axis=1)[:, ::2]),
+                 ('cube 3x3x4', cube.copy()), ('cube with swapped axes', np.swapaxes(cube.copy(), 0, 2)), ('cube transposed', cube.copy().T), ('1x1 grid', np.array([[37.0]])), ('4x1 column', base[:1].T.copy())]
+        for gn, G_ in grids:
+            for h in (0.0, 2500.0):
+                key = f'{clsname} body={body} latitudes as {gn} h={h:g}'
+                ctx.evals += 1
+                try:
+                    with np.errstate(all='ignore'):
+                        out = np.asarray(E0.normal_gravity(G_, h), float)
+                        exp = np.array([float(E0.normal_gravity(float(x), h)) for x in G_.ravel()]).reshape(G_.shape)
+                except (TypeError, ValueError):
+                    ctx.outcome(('latitude-grid-refused', gn)); continue
+                except Exception as ex:
+                    ctx.fail('normal_gravity raises for an n-D latitude grid', key, repr(ex)[:160], 'one value per node'); continue
+                ok = out.shape == exp.shape and bool(np.all(np.abs(out - exp) <= 1e-12 * np.abs(exp)))
+                ctx.expect(ok, 'normal_gravity on an n-D latitude grid: node by node the value of the scalar call, in any memory layout', key, out, exp, 1e-12)
+        ctx.cls('latitude-grids')
+    ctx.cls('param-carriers')
+
+
 def run(ctx):
     rg.selftest()
     As, Fs, Gs, Ms, LATS, HS = _alph(ctx)
@@ -680,6 +753,8 @@ def run(ctx):
     jobs.append(('job_bodies_interleaved', ('ReferenceEllipsoid',)))
     jobs.append(('job_bodies_interleaved', ('WGS',)))
     jobs.append(('job_formulas', ()))
+    jobs.append(('job_param_carriers', ('ReferenceEllipsoid',)))
+    jobs.append(('job_param_carriers', ('WGS',)))
     jobs.append(('job_mutation', ('ReferenceEllipsoid',)))
     jobs.append(('job_mutation', ('WGS',)))
     core.run_jobs(ctx, __name__, jobs)
